@@ -1,6 +1,7 @@
 package main
 
 import (
+	"regexp"
 	"fmt"
 	"go/ast"
 	"strings"
@@ -316,6 +317,8 @@ func (c *ctx) assembleFacts() {
 
 // condCallShape lists, in source order, the recognised calls and the recognised `if` conditions
 // (as "if:<cond>") of a function
+var lenArg = regexp.MustCompile(`len\([A-Za-z_][A-Za-z0-9_]*\)`)
+
 func (c *ctx) condCallShape(fd *ast.FuncDecl, conds []string, pats [][2]string) []string {
 	if fd == nil {
 		return nil
@@ -330,7 +333,8 @@ func (c *ctx) condCallShape(fd *ast.FuncDecl, conds []string, pats [][2]string) 
 		case *ast.IfStmt:
 			cs := exprString(t.Cond)
 			for _, k := range conds {
-				if cs == k {
+				// the name of a local inside len(…) does not matter
+				if cs == k || lenArg.ReplaceAllString(cs, "len(_)") == lenArg.ReplaceAllString(k, "len(_)") {
 					hits = append(hits, hit{int(t.Pos()), "if:" + k})
 				}
 			}
